@@ -246,6 +246,9 @@ pub struct Monitor {
     pub first_unsafe_store: Option<String>,
     /// First transmission per first-datagram index (retransmissions must be identical).
     first_tx: BTreeMap<u8, Vec<u8>>,
+    /// Transmissions per first-datagram index and the number of retries the policy allows
+    tx_count: BTreeMap<u8, u32>,
+    pub retry_bound: Option<u32>,
 }
 
 impl Monitor {
@@ -264,6 +267,8 @@ impl Monitor {
             transitions_seen: BTreeSet::new(),
             first_unsafe_store: None,
             first_tx: BTreeMap::new(),
+            tx_count: BTreeMap::new(),
+            retry_bound: None,
         }
     }
 
@@ -613,6 +618,12 @@ pub fn execute(case: &Case, cfg: &RunConfig) -> Result<Outcome, Fail> {
     let tx_waker = CountWaker::new();
 
     let mut monitor = Monitor::new(pdu_loop, cfg.c06_domain);
+
+    monitor.retry_bound = match sc.retry {
+        Retry::None => Some(0),
+        Retry::Count(n) => Some(u32::from(n)),
+        Retry::Forever => None,
+    };
     let mut outcome = Outcome::default();
     let mut chooser = Chooser::new(&case.schedule, parties);
 
@@ -979,7 +990,7 @@ fn apply_event(
                     }
                 }
                 Note::ViewDropped { .. } => {}
-                Note::TxSeen { bytes, .. } => {
+                Note::TxSeen { bytes, slot: went_out } => {
                     outcome.tx_frames += 1;
 
                     if bytes.len() > 17 {
@@ -987,10 +998,29 @@ fn apply_event(
 
                         match monitor.first_tx.get(&idx) {
                             None => {
+                                if went_out == 1 {
+                                    monitor.tx_count.insert(idx, 1);
+                                }
+
                                 monitor.first_tx.insert(idx, bytes);
                             }
                             Some(first) => {
                                 outcome.retransmissions += 1;
+
+                                // Scenarios use each index for one request only (fewer than 256
+                                // requests), so more transmissions than 1 + retries is a policy
+                                // violation
+                                let c = monitor.tx_count.entry(idx).or_insert(0);
+
+                                if went_out == 1 {
+                                    *c += 1;
+                                }
+
+                                if let Some(bound) = monitor.retry_bound {
+                                    if *c > bound + 1 && fatal.is_none() {
+                                        *fatal = Some(Fail::new("C06|too-many-transmissions", format!("a request was transmitted {c} times, the retry policy allows {} retries", bound)));
+                                    }
+                                }
 
                                 if *first != bytes && fatal.is_none() {
                                     *fatal = Some(Fail::new(
@@ -1236,7 +1266,8 @@ fn tx_task(tx: &mut PduTx<'_>, _pdu_loop: &PduLoop<'_>, wire: &Arc<Mutex<Wire>>,
                     wire.lock().unwrap().pending.push(seen.clone());
                 }
 
-                note(Note::TxSeen { slot: 0, bytes: seen });
+                // `slot` carries whether the frame really went out
+                note(Note::TxSeen { slot: u8::from(outcome == TxOutcome::Ok), bytes: seen });
             }
             None => wait_ev(Ev::WaitWake),
         }
